@@ -261,10 +261,14 @@ impl CaState {
 	fn order_json(&self, oid: usize) -> Value {
 		let o = &self.orders[oid];
 		let st = self.order_status(oid);
+		let mut idents: Vec<Value> = o.identifiers.iter().map(|(t, val)| json!({"type": t, "value": if self.plan.order_echo == "upper" && t == "dns" { val.to_uppercase() } else { val.clone() }})).collect();
+		if self.plan.order_echo == "reversed" {
+			idents.reverse();
+		}
 		let mut v = json!({
 			"status": st,
 			"expires": "2099-01-01T00:00:00Z",
-			"identifiers": o.identifiers.iter().map(|(t, val)| json!({"type": t, "value": val})).collect::<Vec<_>>(),
+			"identifiers": idents,
 			"authorizations": (0..o.authz.len()).map(|i| self.url(&format!("/authz/{oid}/{i}"))).collect::<Vec<_>>(),
 			"finalize": self.url(&format!("/fin/{oid}")),
 		});
